@@ -135,6 +135,11 @@ def bumpLast {ρ} (acc : List (Step ρ)) (ms : Int) : Option (List (Step ρ)) :=
   | none => none
   | some l => some (acc.dropLast ++ [{ l with sleep := l.sleep + ms }])
 
+/-- `config.MaxScenarioRequests` (= `1 << 20`): the number of requests one scenario may expand to (repair 1eaf10a: a larger
+repeat count is a config error instead of an append loop that exhausts the memory); regenerated as
+`Gen.C15Flow.maxScenarioRequests` -/
+def maxScenarioRequests : Int := 1048576
+
 /-- the loop body of `convertScenarioToAmmo` for one parsed item -/
 def expandItem {ρ} (reqs : List Char → Option ρ) (acc : List (Step ρ)) (it : Item) : Outcome (List (Step ρ)) :=
   if it.name == sleepName then
@@ -146,6 +151,8 @@ def expandItem {ρ} (reqs : List Char → Option ρ) (acc : List (Step ρ)) (it 
     | none => .err "notfound"
     | some r =>
       let s : Step ρ := { name := it.name, req := r, sleep := if it.sleep > 0 then it.sleep else 0 }
+      -- `if cnt > config.MaxScenarioRequests-len(result.Requests) { return nil, fmt.Errorf("… at most %d requests") }` (1eaf10a)
+      if it.cnt > maxScenarioRequests - (acc.length : Int) then .err "toomany" else
       .ok (acc ++ List.replicate it.cnt.toNat s)
 
 def expandItems {ρ} (reqs : List Char → Option ρ) : List Item → List (Step ρ) → Outcome (List (Step ρ))
